@@ -138,6 +138,20 @@ Definition looks_f64 (s : string) : bool :=
 Definition default_uses_text (s : string) : bool :=
   if contains_char "("%char s then true
   else negb (String.eqb s "true" || String.eqb s "false" || starts_with "'" s || starts_with """" s || looks_f64 s)%bool.
+(* what render_column (374-417) emits for a default, in the order of its if-chain *)
+Inductive sm_default_kind := SmServerText | SmTrue | SmFalse | SmQuoted | SmNumber.
+Definition sqlmodel_default_kind (s : string) : sm_default_kind :=
+  if contains_char "("%char s then SmServerText                (* sa_column_kwargs={"server_default": text("...")} *)
+  else if String.eqb s "true" then SmTrue                      (* default=True *)
+  else if String.eqb s "false" then SmFalse                    (* default=False *)
+  else if (starts_with "'" s || starts_with """" s)%bool then SmQuoted   (* default="..." *)
+  else if looks_f64 s then SmNumber                            (* default=<number> *)
+  else SmServerText.                                           (* assumed server default: text("...") *)
+Definition kind_is_text (k : sm_default_kind) : bool := match k with SmServerText => true | _ => false end.
+(* per column: does its Field(...) wrap the default in text("...")? *)
+Definition sqlmodel_column_uses_text (c : column_def) : bool :=
+  match c_default c with Some d => kind_is_text (sqlmodel_default_kind (default_to_sql d)) | None => false end.
+
 Definition sqlmodel_needs_text (t : table_def) : bool :=
   existsb (fun c => match c_default c with Some d => default_uses_text (default_to_sql d) | None => false end) (t_columns t).
 
